@@ -239,7 +239,7 @@ func parentMain(cfg *Config, tier string, seed int64, replay string) int {
 		cfg.Parallel = runtime.NumCPU()
 	}
 	if cfg.CaseTimeout == 0 {
-		cfg.CaseTimeout = 300 * time.Second
+		cfg.CaseTimeout = 120 * time.Second
 	}
 	work := filepath.Join(VerifDir, ".work", fmt.Sprintf("%s-%d", cfg.Prop, os.Getpid()))
 	os.RemoveAll(work)
@@ -536,7 +536,7 @@ func runChild(cfg *Config, self, tier string, seed int64, work string, bi, from,
 	cmd.Stderr = ef
 	cmd.Stdout = ef
 	cmd.Env = append(os.Environ(), extraEnv...)
-	cmd.Env = append(cmd.Env, "GORACE=halt_on_error=0 log_path="+filepath.Join(work, "race"), "GOTRACEBACK=all")
+	cmd.Env = append(cmd.Env, "GORACE=halt_on_error=0 exitcode=0 log_path="+filepath.Join(work, "race"), "GOTRACEBACK=all")
 	cmd.SysProcAttr = &syscall.SysProcAttr{Setpgid: true}
 	if err := cmd.Start(); err != nil {
 		ef.Close()
@@ -544,22 +544,35 @@ func runChild(cfg *Config, self, tier string, seed int64, work string, bi, from,
 	}
 	done := make(chan error, 1)
 	go func() { done <- cmd.Wait() }()
-	timeout := cfg.CaseTimeout * time.Duration(to-from)
-	if timeout > 2*time.Hour {
-		timeout = 2 * time.Hour
-	}
+	// Progress watchdog: the child appends a line to its log when a case starts and when it
+	// ends. No growth of that log for CaseTimeout (generous: orders of magnitude above a
+	// normal case) means the current case is stuck.
+	timeout := cfg.CaseTimeout
 	timedOut := false
 	var werr error
-	select {
-	case werr = <-done:
-	case <-time.After(timeout):
-		timedOut = true
-		syscall.Kill(-cmd.Process.Pid, syscall.SIGQUIT)
+	lastSize, lastChange := int64(-1), time.Now()
+	tick := time.NewTicker(500 * time.Millisecond)
+	defer tick.Stop()
+wait:
+	for {
 		select {
 		case werr = <-done:
-		case <-time.After(20 * time.Second):
-			syscall.Kill(-cmd.Process.Pid, syscall.SIGKILL)
-			werr = <-done
+			break wait
+		case <-tick.C:
+			if st, err := os.Stat(out); err == nil && st.Size() != lastSize {
+				lastSize, lastChange = st.Size(), time.Now()
+			}
+			if time.Since(lastChange) > timeout {
+				timedOut = true
+				syscall.Kill(cmd.Process.Pid, syscall.SIGQUIT)
+				select {
+				case werr = <-done:
+				case <-time.After(20 * time.Second):
+					syscall.Kill(-cmd.Process.Pid, syscall.SIGKILL)
+					werr = <-done
+				}
+				break wait
+			}
 		}
 	}
 	ef.Close()
@@ -601,8 +614,8 @@ func runChild(cfg *Config, self, tier string, seed int64, work string, bi, from,
 			class = "hang"
 		} else {
 			// inconclusive: report as a record
-			recs = append(recs, Record{Case: caseIdx, Info: lastInfo, Inconcl: "watchdog fired after " + timeout.String() + " and the goroutine dump is not a logical deadlock"})
-			saveWitness(cfg.Prop, seed, caseIdx, "watchdog", stderr)
+			w := saveWitness(cfg.Prop, seed, caseIdx, "watchdog", stderr)
+			recs = append(recs, Record{Case: caseIdx, Info: lastInfo, Inconcl: "no progress for " + timeout.String() + " and the goroutine dump is not a logical deadlock (dump: " + w + ")"})
 			return recs, nil, caseIdx + 1
 		}
 	case strings.Contains(stderr, "fatal error: checkptr"):
